@@ -59,7 +59,8 @@ def programs(draw, opts=None):
     for vi in range(draw(st.integers(0, 5))):
         # names are unique per module only: the same global name in two modules is a case of its own
         vm = draw(st.integers(0, nmods - 1))
-        free = [n for n in ("VA", "VB", "VC") if not any(v["mod"] == vm and v["name"] == n for v in prog["vars"])]
+        # ("x" and "y" are also the names of the parameters of the generated functions, "format" the name of a builtin: a global may be shadowed by a parameter)
+        free = [n for n in ("VA", "VB", "VC", "x", "y", "format") if not any(v["mod"] == vm and v["name"] == n for v in prog["vars"])]
         if not free:
             continue
         prog["vars"].append({"name": draw(st.sampled_from(free)), "mod": vm, "val": enc(draw(st.sampled_from(vpool)))})
@@ -119,7 +120,12 @@ def programs(draw, opts=None):
         for k in range(n):
             kinds = ["ext"]
             attr_vars = "var-through-module-attribute" not in opts.get("exclude", ())
-            if any(v["mod"] == here_mod or (attr_vars and v["mod"] < here_mod) for v in prog["vars"]):
+
+            def readable(v):
+                # a bare read of a global that carries the name of a parameter would read the parameter
+                return (v["mod"] == here_mod and v["name"] not in here_params) or (attr_vars and v["mod"] < here_mod)
+
+            if any(readable(v) for v in prog["vars"]):
                 kinds += ["var", "var"]
             if i > 0:
                 kinds += ["call", "call", "ho"]
@@ -129,7 +135,7 @@ def programs(draw, opts=None):
                 kinds.append("cls")
             kind = draw(st.sampled_from(kinds))
             if kind == "var":
-                vi = draw(st.sampled_from([vi for vi, v in enumerate(prog["vars"]) if v["mod"] == here_mod or (attr_vars and v["mod"] < here_mod)]))
+                vi = draw(st.sampled_from([vi for vi, v in enumerate(prog["vars"]) if readable(v)]))
                 if prog["vars"][vi]["mod"] != here_mod:
                     body.append(["var", vi, "modattr"])
                 else:
@@ -239,6 +245,8 @@ def programs(draw, opts=None):
              "data": new_path() if data else None, "body": []}
         if opts.get("rets"):
             f["ret"] = draw(st.sampled_from(["tuple", "tuple", "text", "bytes"]))
+        if opts.get("indent", True) and draw(st.integers(0, 3)) == 0:
+            f["ind"] = draw(st.integers(0, 1))
         prog["funcs"].append(f)
         body, is_unique = gen_body(i, mod, [p for p, _ in params])
         if last and motif is not None and motif not in referenced:
@@ -283,13 +291,15 @@ def edits(draw, prog, root, kinds=None, opts=None):
     """One model-level edit applicable to prog; returns the JSON edit."""
     opts = opts or {}
     cl = M.closure(prog, root)
-    kinds = kinds or ["setvar", "bump", "pad", "setlit", "unrelated", "reorder", "ext_pad", "bumpcls"]
+    kinds = kinds or ["setvar", "bump", "pad", "setlit", "unrelated", "reorder", "ext_pad", "bumpcls", "rename_fun", "indent"]
     avail = []
     vpool = _var_pool(opts)
     for k in kinds:
         if k == "setvar" and prog["vars"]:
             avail.append(k)
-        elif k in ("bump", "pad"):
+        elif k in ("bump", "pad", "rename_fun"):
+            avail.append(k)
+        elif k == "indent" and any("ind" in f for f in prog["funcs"]):
             avail.append(k)
         elif k == "setlit" and _lit_sites(prog):
             avail.append(k)
@@ -305,6 +315,14 @@ def edits(draw, prog, root, kinds=None, opts=None):
         cur = canon_key(dec(prog["vars"][vi]["val"]))
         cands = [v for v in vpool if canon_key(v) != cur]
         return ["setvar", vi, enc(draw(st.sampled_from(cands)))]
+    if k == "indent":
+        cands = [i for i, f in enumerate(prog["funcs"]) if "ind" in f]
+        inside = [i for i in cands if i in cl["f"]]
+        return ["indent", draw(st.sampled_from(inside if inside and draw(st.integers(0, 3)) else cands))]
+    if k == "rename_fun":
+        inside = sorted(cl["f"])
+        fi = draw(st.sampled_from(inside)) if draw(st.integers(0, 3)) else draw(st.integers(0, len(prog["funcs"]) - 1))
+        return ["rename_fun", fi, prog["funcs"][fi]["name"] + "r"]
     if k in ("bump", "pad"):
         inside = sorted(cl["f"])
         fi = draw(st.sampled_from(inside)) if draw(st.integers(0, 3)) else draw(st.integers(0, len(prog["funcs"]) - 1))
